@@ -686,10 +686,15 @@ public:
 		if (!(c = _ref.detach())) {
 			return false;
 		}
+		long used = c->length();
 		if (len < 0
-		    && (len += length()) < 0) {
+		    && (len += used) < 0) {
 			_ref.set_instance(c);
 			return false;
+		}
+		/* private copy must hold existing elements */
+		if (len < used) {
+			len = used;
 		}
 		content<T> *n;
 		if ((n = c->detach(len * sizeof(T)))) {
@@ -697,7 +702,7 @@ public:
 			return true;
 		}
 		_ref.set_instance(c);
-		return true;
+		return false;
 	}
 	bool resize(long len)
 	{
